@@ -15,12 +15,18 @@ import boot  # noqa: F401  (puts the repo on sys.path)
 import runner
 
 VERIF = boot.VERIF
+# mutant / seeded-change runs must not overwrite the committed evidence and replays
+OUT = os.environ.get("VERIF_OUT") or VERIF
 
 LEVEL = {"C01": "fault_enumeration"}
 TIERS = {
-    "quick": {"runs": 1600, "budget": 40},
+    "quick": {"runs": 1600, "budget": 45},
     "thorough": {"runs": 40000, "budget": 720},
 }
+# quick tier sized so that each check takes about 20-30 s on 16 cores
+QUICK_RUNS = {"C01": 5000, "C03": 4000, "C04": 3000, "C05": 4000, "C08": 1600, "C10": 1600, "C16": 3000,
+              "C17": 6000, "C20": 3000}
+THOROUGH_RUNS = {"C08": 25000, "C10": 25000}
 
 # probes that must be non-zero for a batch to count as having explored the property
 REACH = {
@@ -36,7 +42,7 @@ REACH = {
             "C08.neighbour_rebases", "C08.mirror_roundtrips", "C08.touches_checked", "C08.histories"],
     "C10": ["C10.retained:doc", "C10.retained:step", "C10.retained:transform", "stats:rebase"],
     "C16": ["C16.merge:replace.append", "C16.merge:replace.prepend", "C16.merge:addMark", "C16.other_docs"],
-    "C17": ["C17.site:rebase", "stats:rebase"],
+    "C17": ["C17.site:rebase", "C17.site:round", "stats:rebase"],
     "C20": ["C20.pairs_sharing_children", "C20.equal_pairs", "C20.pairs_with_astral_text", "C20.site:edit"],
 }
 
@@ -141,8 +147,8 @@ def write_evidence(prop, tier, seed, results, wall, violations, known_lines, int
         "wall_s": round(wall, 2),
         "violations": violations,
     }
-    os.makedirs(os.path.join(VERIF, "evidence"), exist_ok=True)
-    with open(os.path.join(VERIF, "evidence", prop + ".json"), "w") as f:
+    os.makedirs(os.path.join(OUT, "evidence"), exist_ok=True)
+    with open(os.path.join(OUT, "evidence", prop + ".json"), "w") as f:
         json.dump(ev, f, indent=1, sort_keys=True, default=repr)
     return probes, stats
 
@@ -152,8 +158,8 @@ def report_violation(prop, r, known):
     target = r["violation"]
     cfg, trace, replays, ok = runner.shrink(prop, r["cfg"], r["trace"], target, known)
     final = runner.run_replay(prop, cfg, trace, known)
-    os.makedirs(os.path.join(VERIF, "replays"), exist_ok=True)
-    path = os.path.join(VERIF, "replays", "%s-seed%d.json" % (prop, r["seed"]))
+    os.makedirs(os.path.join(OUT, "replays"), exist_ok=True)
+    path = os.path.join(OUT, "replays", "%s-seed%d.json" % (prop, r["seed"]))
     data = {
         "property": prop, "seed": r["seed"], "cfg": cfg, "trace": trace,
         "violation": final["violation"] or target, "digest": final["digest"],
@@ -203,7 +209,7 @@ def main():
     if a.replay:
         return do_replay(prop, a.replay)
     tier = a.tier if a.tier in TIERS else "quick"
-    runs = a.runs or TIERS[tier]["runs"]
+    runs = a.runs or (QUICK_RUNS if tier == "quick" else THOROUGH_RUNS).get(prop, TIERS[tier]["runs"])
     budget = a.budget or TIERS[tier]["budget"]
     print("check %s tier=%s VERIF_SEED=%d runs<=%d budget=%ss workers=%d repo=%s" % (
         prop, tier, a.seed, runs, budget, a.workers, boot.REPO))
